@@ -956,3 +956,151 @@ func paramIsZeroLocal(c *Ctx, fn *ssa.Function, base ssa.Value, depth int) bool 
 	}
 	return true
 }
+
+// ---- CAPTURED ------------------------------------------------------------------------
+
+func init() {
+	Register(&Rule{ID: "CAPTURED", Props: []string{"C11"}, Min: 2,
+		Doc: "a closure that outlives the call that creates it (it is returned, or stored into a field, map or package variable: DefaultLayer, DefaultKeyCompare, marshal wrappers — Clone copies such function values, so every tree and goroutine shares them) never writes a variable it captured: no store, append-and-store, element/field write or map update through a free variable.",
+		Run: runCAPTURED})
+}
+
+// closureEscapes: may the closure value outlive the function that creates it?
+func closureEscapes(mc *ssa.MakeClosure) (bool, string) {
+	seen := map[ssa.Value]bool{}
+	work := []ssa.Value{mc}
+	for len(work) > 0 {
+		v := work[0]
+		work = work[1:]
+		if seen[v] || v.Referrers() == nil {
+			continue
+		}
+		seen[v] = true
+		for _, r := range *v.Referrers() {
+			switch x := r.(type) {
+			case *ssa.Return:
+				return true, "returned"
+			case *ssa.Store:
+				if x.Val != v {
+					continue
+				}
+				switch a := x.Addr.(type) {
+				case *ssa.Alloc:
+					// a local variable holding the closure: follow its loads
+					if a.Referrers() != nil {
+						for _, ar := range *a.Referrers() {
+							if ld, ok := ar.(*ssa.UnOp); ok && ld.Op == token.MUL {
+								work = append(work, ld)
+							}
+						}
+					}
+				default:
+					return true, "stored into " + pathDesc(ir.Sym(x.Addr))
+				}
+			case *ssa.MapUpdate:
+				if x.Value == v {
+					return true, "stored into a map"
+				}
+			case *ssa.MakeInterface, *ssa.ChangeType, *ssa.Phi:
+				work = append(work, r.(ssa.Value))
+			}
+		}
+	}
+	return false, ""
+}
+
+// freeVarRoot: the free variable an address (or a loaded container) is reached through.
+func freeVarRoot(v ssa.Value, d int) *ssa.FreeVar {
+	if d > 10 {
+		return nil
+	}
+	switch x := v.(type) {
+	case *ssa.FreeVar:
+		return x
+	case *ssa.FieldAddr:
+		return freeVarRoot(x.X, d+1)
+	case *ssa.IndexAddr:
+		return freeVarRoot(x.X, d+1)
+	case *ssa.UnOp:
+		if x.Op == token.MUL {
+			return freeVarRoot(x.X, d+1)
+		}
+	case *ssa.Slice:
+		return freeVarRoot(x.X, d+1)
+	case *ssa.ChangeType:
+		return freeVarRoot(x.X, d+1)
+	}
+	return nil
+}
+
+func runCAPTURED(c *Ctx) {
+	P := c.P
+	for _, fn := range P.Funcs {
+		if fn.Pkg.Pkg.Path() != ir.MastPath {
+			continue
+		}
+		for _, b := range fn.Blocks {
+			for _, ins := range b.Instrs {
+				mc, ok := ins.(*ssa.MakeClosure)
+				if !ok {
+					continue
+				}
+				esc, how := closureEscapes(mc)
+				if !esc {
+					continue
+				}
+				body, _ := mc.Fn.(*ssa.Function)
+				if body == nil {
+					continue
+				}
+				what := fmt.Sprintf("closure %s (%s by %s)", ir.FuncName(body), how, ir.FuncName(fn))
+				bad := false
+				for _, g := range append([]*ssa.Function{body}, allAnon(body)...) {
+					for _, gb := range g.Blocks {
+						for _, gi := range gb.Instrs {
+							var addr ssa.Value
+							switch y := gi.(type) {
+							case *ssa.Store:
+								addr = y.Addr
+							case *ssa.MapUpdate:
+								addr = y.Map
+							}
+							if addr == nil {
+								continue
+							}
+							fv := freeVarRoot(addr, 0)
+							if fv == nil {
+								continue
+							}
+							// resolve a nested closure's free variable outwards: state declared inside the shared
+							// closure itself is per-call; only what comes from outside it is shared
+							outside := false
+							cur := fv
+							for i := 0; i < 6 && cur != nil; i++ {
+								if cur.Parent() == body {
+									outside = true
+									break
+								}
+								bnd := ir.BindingOf(cur)
+								if bnd == nil {
+									outside = true // created at several sites: assume shared
+									break
+								}
+								cur = freeVarRoot(bnd, 0)
+							}
+							if !outside {
+								continue
+							}
+							bad = true
+							c.Violation(body, P.InstrPos(gi), "shared closure writes captured variable "+fv.Name(),
+								"the function value is shared by every tree that was configured with it (Clone copies it) and by all goroutines using those trees: a write to a captured variable is a data race and couples independent trees (e.g. a reused scratch buffer corrupts another goroutine's layer computation)")
+						}
+					}
+				}
+				if !bad {
+					c.OK(P.InstrPos(mc), what, "writes no captured variable", false)
+				}
+			}
+		}
+	}
+}
